@@ -84,7 +84,21 @@ def _engine():
 
 
 def run_case(eng, case, timeout=30.0):
-    return eng.run(request_of(case), timeout=timeout)
+    rs = eng.run(request_of(case), timeout=timeout)
+    return confirm_hangs(eng, case, rs, timeout)
+
+
+def confirm_hangs(eng, case, rs, timeout):
+    """A `hang` is a wall-clock verdict (in-engine watchdog / reply deadline), so on a loaded machine it can be
+    produced by scheduling alone. Before it is judged, the case is run again on its own with eight times the budget;
+    the patient result replaces the first one. Cases that opt out (`hang_retry: False`, used where a hang is tolerated
+    anyway) keep the first answer."""
+    if not any(r.get("st") == "hang" for r in rs) or case.opts.get("hang_retry", True) is False:
+        return rs
+    opts = dict(case.opts)
+    opts["step_ms"] = min(60000, max(8000, 8 * int(opts.get("step_ms", 3000))))
+    patient = Case(case.steps, case.meta, pre=case.pre, iso=case.iso, opts=opts, bind=case.bind)
+    return eng.run(request_of(patient), timeout=max(8 * timeout, 90.0))
 
 
 def _run_batch(eng, batch, timeout):
@@ -116,7 +130,7 @@ def _run_batch(eng, batch, timeout):
             off = 0
             for i in part:
                 n = len(batch[i].steps)
-                out[i] = res[off:off + n]
+                out[i] = confirm_hangs(eng, batch[i], res[off:off + n], timeout)
                 off += n
     return out
 
@@ -315,7 +329,7 @@ def run_property(modname, tier, seed=0):
         "cases": total["cases"],
         "distinct_nontrivial": total["nontrivial"],
         "rule": getattr(mod, "RULE", ""),
-        "samples": samples[:6] if samples else [{"note": "no sample selected"}],
+        "samples": _pick_samples(samples),
         "exhaustive": True,
         "bounds": mod.bounds(tier) if hasattr(mod, "bounds") else {},
         "status_histogram": dict(status),
@@ -345,6 +359,22 @@ def run_property(modname, tier, seed=0):
           % (prop, tier, total["cases"], total["evals"], total["nontrivial"], len(outcomes), dict(status),
              len(knownhits), len(new), wall))
     return 1 if new else 0
+
+
+def _pick_samples(samples):
+    """at most 6 distinct samples: summaries first, then the longest histories / step lists"""
+    if not samples:
+        return [{"note": "no sample selected"}]
+    seen, uniq = set(), []
+    for x in samples:
+        k = json.dumps(x, sort_keys=True, default=str)
+        if k not in seen:
+            seen.add(k)
+            uniq.append(x)
+    size = lambda x: len(x.get("history", x.get("steps", [])))
+    summ = [x for x in uniq if "history" not in x and "steps" not in x]
+    rest = sorted([x for x in uniq if x not in summ], key=lambda x: -size(x))
+    return (summ[:2] + rest)[:6]
 
 
 def replay(path):
